@@ -62,7 +62,8 @@ PROFILES = {
             {"stochastic": True, "cstate": False, "periods": (3, 5)},
         ],
         "workers": [1, 1, 2],
-        "fault_free_p": 0.9,
+        "fault_free_p": 0.65,
+        "fault_bias": "simulate",
         "restart_p": 0.15,
         "batch_size": (20000, 20000),
         "n_sigs": (2, 3),
@@ -162,7 +163,7 @@ def make_run_plan(run_seed: int, profile: str, tier: str = "quick", overrides: d
     if big and tier == "thorough":
         P["batch_size"] = rng.choice([(20000, 20000), (50000, 50000), (100000, 100000)])
     fresh_ref = rng.random() < P["fresh_ref_p"]
-    default_leaf = rng.choice(["float", "float", "np", "np0d", "jax"])
+    default_leaf = rng.choice(["float", "float", "np", "np0d", "jax", "int"])
 
     # ---------------------------------------------------------------- models, params, batches
     for i in range(n_models):
@@ -182,6 +183,10 @@ def make_run_plan(run_seed: int, profile: str, tier: str = "quick", overrides: d
                 b.params[f"{mid}p{j}"] = {"model": mid, "values": catalogue.perturb_params(rng, recipe, meta, b.params[f"{mid}p0"]["values"], sparsity)}
             else:
                 b.params[f"{mid}p{j}"] = {"model": mid, "values": catalogue.gen_params(rng, recipe, meta, sparsity)}
+        fd_pid = None
+        if rng.random() < P.get("fd_neighbour_p", 0.5):
+            fd_pid = f"{mid}p{j + 1}"
+            b.params[fd_pid] = {"model": mid, "values": catalogue.fd_neighbour_params(rng, recipe, meta, b.params[f"{mid}p0"]["values"]), "fd_of": f"{mid}p0"}
         if meta["stochastic"] and rng.random() < P.get("f32_shocks_p", 0.15):
             # transition arrays supplied in single precision (values exactly representable, so that
             # the harness's own row lookup is exact)
@@ -190,7 +195,7 @@ def make_run_plan(run_seed: int, profile: str, tier: str = "quick", overrides: d
             def _f32(x):
                 return [_f32(y) for y in x] if isinstance(x, list) else float(_np.float32(x))
 
-            last = sorted(p for p in b.params if b.params[p]["model"] == mid)[-1]
+            last = sorted(p for p in b.params if b.params[p]["model"] == mid and not b.params[p].get("fd_of"))[-1]
             b.params[last]["values"]["shocks"] = {k: _f32(v) for k, v in b.params[last]["values"]["shocks"].items()}
             b.params[last]["shocks_dtype"] = "float32"
         pool = [catalogue.gen_agent(rng, recipe, P["on_grid_bias"]) for _ in range(rng.randint(*P["pool"]))]
@@ -270,10 +275,19 @@ def make_run_plan(run_seed: int, profile: str, tier: str = "quick", overrides: d
     # estimation loops: the same call with p0 and with its neighbour p1
     est_loops = []
     if rng.random() < P.get("est_loop_p", 0.5):
-        base = [x for x in sigs if x["pid"].endswith("p0") or x["pid"].endswith("p1")]
+        fd_of = {p: v["fd_of"] for p, v in b.params.items() if v.get("fd_of")}
+        partners = {}
+        for p in b.params:
+            if p.endswith("p0"):
+                partners[p] = [p[:-1] + "1"] + [q for q, o in fd_of.items() if o == p] * 2
+            elif p.endswith("p1"):
+                partners[p] = [p[:-1] + "0"]
+            elif p in fd_of:
+                partners[p] = [fd_of[p]]
+        base = [x for x in sigs if x["pid"] in partners]
         if base:
             s0 = dict(rng.choice(base))
-            other = s0["pid"][:-1] + ("1" if s0["pid"].endswith("0") else "0")
+            other = rng.choice(partners[s0["pid"]])
             s1 = dict(s0, pid=other)
             if s0["kind"] == "SIM":
                 if s0["vp"] != s0["pid"]:
@@ -376,7 +390,7 @@ def make_run_plan(run_seed: int, profile: str, tier: str = "quick", overrides: d
                 op["needs"] = [first_build[mids[0]]]
             first_build.setdefault(mid, op["id"])
             ops.append(op)
-            handles.append({"hid": hid, "mid": mid, "target": target, "build": op["id"]})
+            handles.append({"hid": hid, "mid": mid, "target": target, "build": op["id"], "jit": op["jit"]})
         # value arrays from the durable store (after a restart)
         for (mid, pid), key in store_keys.items():
             op = {"id": b.oid(), "kind": "LOAD", "worker": rng.randrange(n_workers), "key": key, "as": rng.choice(["np", "jax"]), "model_id": mid}
@@ -449,7 +463,13 @@ def make_run_plan(run_seed: int, profile: str, tier: str = "quick", overrides: d
                         hs = ss
                 if not hs:
                     continue
-                loops.append((s0, s1, w, rng.choice(hs), rng.choice(["float", "float", "np0d", "np"]), rng.choice([[0, 1], [0, 1, 0], [1, 0, 1], [0, 1, 0, 1]])))
+                hnd = rng.choice(hs)
+                pattern = rng.choice([[0, 1], [0, 1, 0], [1, 0, 1], [0, 1, 0, 1]])
+                if s0["kind"] == "SOLVE" and hnd.get("jit") and rng.random() < P.get("long_loop_p", 0.5):
+                    # a long estimation loop on a compiled function (a call costs milliseconds): deep
+                    # call histories, bounded caches, counters, recycled object ids
+                    pattern = [rng.randrange(2) for _ in range(rng.randint(12, 40))]
+                loops.append((s0, s1, w, hnd, rng.choice(["float", "float", "np0d", "np", "int"]), pattern))
 
         def emit_loop(lp, tag):
             s0, s1, w, hnd, mleaf, pattern = lp
@@ -486,7 +506,7 @@ def make_run_plan(run_seed: int, profile: str, tier: str = "quick", overrides: d
                 emit_loop(loops[loop_at[k]], loop_at[k])
             s = rng.choice(sigs)
             w = rng.randrange(n_workers)
-            leaf = rng.choice(["float", "np", "np0d", "jax"]) if extras["retype"] else default_leaf
+            leaf = rng.choice(["float", "np", "np0d", "jax", "int", "npint", "jaxint"]) if extras["retype"] else default_leaf
             op = make_call(s, w, leaf)
             if op is None:
                 continue
@@ -494,7 +514,7 @@ def make_run_plan(run_seed: int, profile: str, tier: str = "quick", overrides: d
             if extras["mutate"] and rng.random() < 0.5:
                 key = f"P{inc_index}w{w}:{s['mid']}"
                 cur = priv.get(key)
-                mleaf = rng.choice(["np0d", "float", "np"]) if cur is None else cur[1]
+                mleaf = rng.choice(["np0d", "float", "np", "int", "npint"]) if cur is None else cur[1]
                 if cur is not None and cur[0] != s["pid"]:
                     ops.append({"id": b.oid(), "kind": "MUTATE", "worker": w, "obj": ["params", key], "to": s["pid"], "leaf": mleaf, "model_id": s["mid"]})
                 priv[key] = (s["pid"], mleaf)
@@ -523,14 +543,18 @@ def make_run_plan(run_seed: int, profile: str, tier: str = "quick", overrides: d
             return
         targets = [o for o in ops if o["kind"] in ("BUILD", "SOLVE", "SIMULATE") and not o.get("_loop_fault")]
         rng.shuffle(targets)
+        if P.get("fault_bias") == "simulate":
+            targets.sort(key=lambda o: o["kind"] != "SIMULATE")  # stable: simulate calls first
         chosen = [(o, rng.choice(fault_kinds), False) for o in targets[: rng.randint(1, 3)]]
         chosen += [(o, o.pop("_loop_fault"), True) for o in ops if o.get("_loop_fault")]
         for o, kind, always_retry in chosen:
             T = b.models[o["model_id"]]["n_periods"]
+            # records per call: "Starting ..." + one per period; a solve_and_simulate call logs both parts
+            n_rec = 2 * T + 2 if (o["kind"] == "SIMULATE" and o.get("vsrc") is None) else T + 1
             if kind == "log_error":
-                f = {"kind": kind, "k": rng.randint(1, T + 1)}
+                f = {"kind": kind, "k": rng.randint(1, n_rec)}
             elif kind == "log_stall":
-                f = {"kind": kind, "k": rng.randint(1, T + 1), "q": rng.randint(1, 4)}
+                f = {"kind": kind, "k": rng.randint(1, n_rec), "q": rng.randint(1, 4)}
             elif kind == "callback_raise":
                 fn = rng.choice(b.metas[o["model_id"]]["functions"])
                 f = {"kind": kind, "fn": fn, "k": rng.randint(1, 4)}
